@@ -236,6 +236,8 @@ _s3 = _ilu.spec_from_file_location("c03", _os.path.join(_os.path.dirname(__file_
 for _u in _C03.UNITS:
     if _u["name"] == "c03_eitstar_updateApproximateSolution":
         _v = _copy.deepcopy(_u); _v["name"] = "c04_eitstar_updateApproximateSolution"; _v["needs"] = ["eit_approx"]; UNITS.append(_v)
+# BIT*'s publication of the incumbent (unit of C01): the cost stored with the published solution is bestCost_, the objective flag is the objective's verdict for it
+_v = _copy.deepcopy(_C03.C01.BP_UNIT); _v["name"] = "c04_bitstar_publishSolution"; UNITS.append(_v)
 ASSUMPTIONS = [
     "solution fields are not NaN; the solutions compared carry the same objective (or all none)",
     "the objective's isCostBetterThan is the base '<' or MaximizeMinClearance's '>' (the two implementations in the tree); user-defined objectives must themselves be strict weak orders",
